@@ -9,7 +9,7 @@ PROPS["C17"] = dict(
                         + _with(op_shards([B_TET], [1], _SWAPS), {4: OP_DEL_V, 5: 3}) + op_shards([B_HEX], [1], [OP_SWAP_V, OP_SWAP_F])},
          bounds="every ordered pair (h1,h2) of vertex/edge/face/cell handles of the base (incl. equal, adjacent, sharing a face/cell, deleted-but-not-collected after a deferred deletion), symbolic selector 8 pairs per query; "
                 "relabeling oracle at symbolic probe indices; C01 cache oracle (level 0) after the swap; second swap restores the state incl. cache order; bases quick: tetrahedron, low-dimensional mesh"),
-    dict(name="c17-nobu", checks="mem", **_c17_common,
+    dict(name="c17-nobu", checks="mem", ll2c_flags=["--null-guard"], **_c17_common,
          shards={"quick": _with(op_shards([B_TET], [1], [OP_SWAP_V]), {7: 9}) + _with(op_shards([B_TET], [1], [OP_SWAP_E]), {7: 10}) + _with(op_shards([B_TET], [1], [OP_SWAP_E]), {7: 9})
                         + _with(op_shards([B_TET], [1], [OP_SWAP_F]), {7: 12}) + _with(op_shards([B_TET], [1], [OP_SWAP_F]), {7: 10}) + _with(op_shards([B_TET], [1], [OP_SWAP_C]), {7: 12})
                         + _with(op_shards([B_TET], [1], [OP_SWAP_C, OP_SWAP_V]), {7: 15}),
